@@ -80,13 +80,6 @@ func c15ErrClass(err error) string {
 	return s
 }
 
-func bigOrZero(v *big.Int) *big.Int {
-	if v == nil {
-		return new(big.Int)
-	}
-	return v
-}
-
 // revalidate B K-1 more times on fresh check states: every execution must accept and give
 // byte-identical receipts (oracle 5).
 func (x *c15Ctx) deterministic(b *types.Block, first types.TxReceipts, sig, what string, replay interface{}) bool {
